@@ -1462,3 +1462,134 @@ theorem underKey_updPathLoci (key : Str) (subs : SubKeys) : ∀ (ks : List Str) 
           | some v => exact hmap k v
         | _ => simp
       | _ => simp [updPathLoci, hk]
+
+/-! ### the count in terms of the nodes the path addresses (last path key ≠ the new key) -/
+
+/-- a node that gets its `key` entry replaced: a map holding `key` and satisfying the sub-keys -/
+def holds (key : Str) (subs : SubKeys) : Val → Bool
+  | .map vv => (lookup key vv).isSome && hasSubKeys (.map vv) subs
+  | _ => false
+
+theorem mapCount_count (f : Val → Val × Nat) (g : Val → List Val) (P : Val → Bool) :
+    ∀ xs : List Val, (∀ x ∈ xs, (f x).2 = ((g x).filter P).length) →
+      (mapCount f xs).2 = ((xs.flatMap g).filter P).length
+  | [], _ => rfl
+  | x :: xs, h => by
+    simp only [mapCount, List.flatMap_cons, List.filter_append, List.length_append]
+    rw [h x (List.mem_cons_self ..),
+      mapCount_count f g P xs (fun y hy => h y (List.mem_cons_of_mem _ hy))]
+
+theorem mapEntriesCount_count (f : Val → Val × Nat) (g : Val → List Val) (P : Val → Bool) :
+    ∀ kvs : Entries, (∀ e ∈ kvs, (f e.2).2 = ((g e.2).filter P).length) →
+      (mapEntriesCount f kvs).2 = ((kvs.flatMap fun e => g e.2).filter P).length
+  | [], _ => rfl
+  | (k, v) :: rest, h => by
+    simp only [mapEntriesCount, List.flatMap_cons, List.filter_append, List.length_append]
+    rw [h (k, v) (List.mem_cons_self ..),
+      mapEntriesCount_count f g P rest (fun y hy => h y (List.mem_cons_of_mem _ hy))]
+
+theorem setInMembers_count (key : Str) (value : Val) (subs : SubKeys) (xs : List Val) :
+    (setInMembers key value subs xs).2 = (xs.filter (holds key subs)).length := by
+  unfold setInMembers
+  refine (mapCount_count _ (fun x => [x]) (holds key subs) xs ?_).trans (by simp)
+  intro x _
+  cases x with
+  | map vv =>
+    by_cases hc : ((lookup key vv).isSome && hasSubKeys (Val.map vv) subs) = true
+    · simp [hc, holds]
+    · simp [hc, holds]
+  | _ => simp [holds]
+
+/-- last step, on the entries of one map -/
+theorem count_last_entries (key : Str) (value : Val) (subs : SubKeys) (k0 : Str)
+    (hne : key ≠ k0) (kvs : Entries) :
+    (updAt key value subs kvs k0).2 =
+      ((match lookup k0 kvs with
+        | some v => loadLeaf none v
+        | none => []).filter (holds key subs)).length := by
+  rw [updAt_eq]
+  cases hl : lookup k0 kvs with
+  | none => rfl
+  | some e =>
+    simp only [updEnd, hne, if_false]
+    cases e with
+    | map ekvs =>
+      by_cases hc : (hasSubKeys (Val.map ekvs) subs && (lookup key ekvs).isSome) = true
+      · have hc' : holds key subs (Val.map ekvs) = true := by
+          simp only [holds]; rw [Bool.and_comm]; exact hc
+        simp [hc, loadLeaf, passSubs, hc']
+      · have hc' : holds key subs (Val.map ekvs) = false := by
+          simp only [holds]; rw [Bool.and_comm]; simpa using hc
+        simp [hc, loadLeaf, passSubs, hc']
+    | list xs =>
+      have hx : xs.filter (passSubs none) = xs := List.filter_eq_self.2 (fun _ _ => rfl)
+      simp only [setInMembers_count, loadLeaf, hx]
+    | _ => simp [loadLeaf, holds]
+
+theorem count_last (key : Str) (value : Val) (subs : SubKeys) (k0 : Str) (hk0 : k0 ≠ ['*'])
+    (hne : key ≠ k0) (m : Val) :
+    (updValue key value subs m k0).2 = ((walk none m [k0]).filter (holds key subs)).length := by
+  cases m with
+  | map kvs =>
+    simp only [updValue, updMap_ne_star _ _ _ _ _ hk0, walk, hk0, if_false]
+    exact count_last_entries key value subs k0 hne kvs
+  | list xs =>
+    simp only [updValue, walk, hk0, if_false]
+    refine mapCount_count _ _ _ xs ?_
+    intro x _
+    cases x with
+    | map vv =>
+      simp only [updMap_ne_star _ _ _ _ _ hk0]
+      exact count_last_entries key value subs k0 hne vv
+    | _ => simp
+  | _ => simp [updValue, walk]
+
+theorem count_addressed (key : Str) (value : Val) (subs : SubKeys) (k0 : Str) (hk0 : k0 ≠ ['*'])
+    (hne : key ≠ k0) : ∀ (ks : List Str) (m : Val), ks.getLast? = some k0 →
+      (updPath key value subs m ks).2 = ((walk none m ks).filter (holds key subs)).length
+  | [], m => by simp
+  | [k], m => by
+    intro h
+    simp only [List.getLast?_singleton, Option.some.injEq] at h
+    subst h
+    simp only [updPath]
+    exact count_last key value subs k hk0 hne m
+  | k :: k' :: ks, m => by
+    intro h
+    rw [List.getLast?_cons_cons] at h
+    have ih := fun v => count_addressed key value subs k0 hk0 hne (k' :: ks) v h
+    by_cases hk : k = ['*']
+    · subst hk
+      cases m with
+      | map kvs =>
+        simp only [updPath, walk, if_true]
+        exact mapEntriesCount_count _ (fun v => walk none v (k' :: ks)) _ kvs (fun e _ => ih e.2)
+      | list xs =>
+        simp only [updPath, walk, if_true]
+        refine mapCount_count _ _ _ xs ?_
+        intro x _
+        cases x with
+        | map kvs =>
+          simp only
+          exact mapEntriesCount_count _ (fun v => walk none v (k' :: ks)) _ kvs
+            (fun e _ => ih e.2)
+        | _ => exact ih _
+      | _ => simp [updPath, walk]
+    · cases m with
+      | map kvs =>
+        simp only [updPath, walk, hk, if_false]
+        cases hl : lookup k kvs with
+        | none => simp
+        | some v => exact ih v
+      | list xs =>
+        simp only [updPath, walk, hk, if_false]
+        refine mapCount_count _ _ _ xs ?_
+        intro x _
+        cases x with
+        | map kvs =>
+          simp only
+          cases hl : lookup k kvs with
+          | none => simp
+          | some v => exact ih v
+        | _ => simp
+      | _ => simp [updPath, walk, hk]
